@@ -21,6 +21,11 @@ fn scripts() -> Vec<(Vec<(usize, Step)>, usize)> {
     // a sync served while a change of the lane is still pending inside the agent
     out.push((sequential(&[vec![link("v"), cmd("v", "1"), cmd("v", "2"), sync("v"), cmd("v", "3")]]), 1));
     out.push((sequential(&[vec![cmd("m", "@update(key:1) 1"), cmd("m", "@update(key:2) 2"), sync("m"), cmd("m", "@remove(key:1)")]]), 1));
+    // the write task reaches its inactivity timeout and votes to stop while the read task is kept busy
+    // by commands that change no lane; the next lane event rescinds the vote
+    out.push((sequential(&[vec![link("v"), cmd("v", "1"), Step::Wait(6), act(&[]), Step::Wait(6), cmd("v", "2")]]), 1));
+    out.push((sequential(&[vec![link("m"), cmd("m", "@update(key:1) 1"), Step::Wait(6), act(&[]), Step::Wait(6), cmd("m", "@update(key:1) 2"), Step::Wait(6), act(&[]), Step::Wait(6), cmd("m", "@remove(key:1)")]]), 1));
+    out.push((sequential(&[vec![act(&["@setvs(5)"]), Step::Wait(6), act(&[]), Step::Wait(6), act(&["@setvs(6)", "@updms{k:1,v:2}"])]]), 1));
     for s in asys::scripts::interleavings(&[vec![link("v"), cmd("v", "1"), cmd("v", "2")], vec![sync("v")]]) {
         out.push((s, 2));
     }
